@@ -22,6 +22,7 @@ Definition lots_nonempty : Prop := lots <> [].
 Definition evs_sorted : Prop :=
   forall i j d, (i < j < length evs)%nat -> e_us (nth i evs d) <= e_us (nth j evs d).
 Definition evs_positive : Prop := forall e, In e evs -> 0 < e_amt e.
+Definition evs_distinct_rows : Prop := NoDup (map e_row evs).
 (** among events of one instant the income events come first (the taxable-event set is built
     from in ++ out ++ intra and sorted stably) *)
 Definition earn_first : Prop :=
@@ -41,6 +42,6 @@ Definition sched_distinct : Prop := NoDup (map fst sched).
 
 Definition wf : Prop :=
   lots_sorted /\ lots_distinct_rows /\ lots_positive /\ lots_nonempty /\
-  evs_sorted /\ evs_positive /\ earn_first /\ earn_is_lot /\
+  evs_sorted /\ evs_positive /\ evs_distinct_rows /\ earn_first /\ earn_is_lot /\
   same_instant_same_year /\ sched_covers /\ sched_distinct.
 End Wf.
